@@ -10,7 +10,7 @@ for d in sorted(glob.glob('/verif/seeded/%s*' % pid)):
     m = json.load(open(d + '/meta.json'))
     s = (m.get('summary', '') or '').replace('\n', ' ')
     prev.append('  - ' + s[:230])
-W = f"/tmp/seed8_{pid}{tag}"
+W = f"/tmp/seed9_{pid}{tag}"
 print(f"""You are a software engineer asked to produce ONE realistic faulty change ("seeded defect") to the Rust crate `ruint` (recmo/uint: const-generic fixed-width unsigned big integers `Uint<BITS, LIMBS>`), for evaluating verification tooling. Work ONLY inside your own scratch git worktree; never touch /repo itself or anything under /verif (do not read /verif either).
 
 Setup (run first):  mkdir -p {W} && git -C /repo worktree add --detach {W}/repo HEAD   — then work in {W}/repo (cargo is offline: use `--offline`; set CARGO_TARGET_DIR={W}/target for every cargo command).
